@@ -14,6 +14,8 @@ AST node kinds (every node has k, line, id):
  (prog["meths"], called by mcall), prelude methods and functions (first last
  is_empty is_non_empty contains concat index_of enumerate map filter is_some
  is_none or_value / range max min not sort_nums), dictionary methods
+ with feature "ext3": string methods (contains starts_with ends_with index_of
+ substring trim* strip_* split chars join)
 """
 import json
 import random
@@ -75,6 +77,16 @@ class Gen:
         if ty == STR:
             if self.features.get("ext") and d < 2 and r.random() < 0.08:
                 return self.node("dot", e=self.expr(STRUCT, scope, d + 1), f="y")
+            if self.features.get("ext3") and d < 2 and r.random() < 0.3:
+                k = r.randint(0, 3)
+                if k == 0:
+                    a = r.randint(0, 2)
+                    return self.node("mcall", m="substring", recv=self.expr(STR, scope, d + 1), args=[self.node("int", v=a), self.node("int", v=a + r.randint(0, 3))])
+                if k == 1:
+                    return self.node("mcall", m=r.choice(["trim", "trim_left", "trim_right"]), recv=self.expr(STR, scope, d + 1), args=[])
+                if k == 2:
+                    return self.node("mcall", m=r.choice(["strip_prefix", "strip_suffix"]), recv=self.expr(STR, scope, d + 1), args=[self.expr(STR, scope, d + 1)])
+                return self.node("mcall", m="join", recv=self.node("str", v=r.choice(STR_POOL)), args=[self.str_list(scope, d + 1)])
             v = self.pick_var(scope, STR)
             c = r.random()
             if v and c < 0.4:
@@ -102,6 +114,8 @@ class Gen:
                 return self.node("mcall", m="append", recv=self.expr(LIST, scope, d + 1), args=[self.int_expr(scope, d + 1)])
             return self.node("list", xs=[self.int_expr(scope, d + 1) for _ in range(r.randint(0, 3))])
         if ty == OPT:
+            if self.features.get("ext3") and d < 2 and r.random() < 0.1:
+                return self.node("mcall", m="index_of", recv=self.expr(STR, scope, d + 1), args=[self.expr(STR, scope, d + 1)])
             if self.features.get("ext2") and d < 2 and r.random() < 0.2:
                 k = r.randint(0, 3)
                 if k == 0:
@@ -154,6 +168,16 @@ class Gen:
 
     def paren(self, e):
         return self.node("paren", e=e)
+
+    def str_list(self, scope, d):
+        """An expression of type List<String> (feature "ext3")."""
+        r = self.r
+        c = r.randint(0, 2)
+        if c == 0:
+            return self.node("mcall", m="split", recv=self.expr(STR, scope, d + 1), args=[self.node("str", v=r.choice(["a", " ", "b", "ab", ""]))])
+        if c == 1:
+            return self.node("mcall", m="chars", recv=self.expr(STR, scope, d + 1), args=[])
+        return self.node("list", xs=[self.expr(STR, scope, d + 1) for _ in range(r.randint(0, 3))])
 
     def inline_lam(self, scope, rt):
         """A closure written where it is used (argument of map / filter)."""
@@ -240,6 +264,8 @@ class Gen:
             if v and r.random() < 0.5:
                 return self.node("var", n=v)
             return self.node("bool", v=r.random() < 0.5)
+        if self.features.get("ext3") and r.random() < 0.12:
+            return self.node("mcall", m=r.choice(["contains", "starts_with", "ends_with"]), recv=self.expr(STR, scope, d + 1), args=[self.expr(STR, scope, d + 1)])
         if self.features.get("ext2") and r.random() < 0.15:
             k = r.randint(0, 3)
             if k == 0:
@@ -361,6 +387,11 @@ class Gen:
                     scope.append((name, INT))
                     return self.node("let", n=name, e=self.node("try", b=body, cb=[self.node("int", v=0)]))
                 return self.node("try", b=body, cb=[self.node("print", v="never")])
+        if self.features.get("ext3") and r.random() < 0.08:
+            if r.random() < 0.15:
+                # a mistake: start beyond end, or a negative start
+                return self.node("show", e=self.node("mcall", m="substring", recv=self.expr(STR, scope, 1), args=[self.node("int", v=r.choice([2, -1])), self.node("int", v=1)]))
+            return self.node("show", e=self.str_list(scope, 1))
         if self.features.get("ext2") and r.random() < 0.12:
             k = r.random()
             if k < 0.35:
